@@ -508,7 +508,7 @@ class Interp:
         st = State() if state is None else state
         env = dict(self.module_env(rel))
         for k, v in list(env.items()):
-            if isinstance(v, (CellV, ListV, MapV)):
+            if isinstance(v, (CellV, ListV, MapV, InstV)):
                 # a module-level mutable object: one instance per abstract run, visible to every frame
                 key = (rel, k)
                 if key not in st.globals:
@@ -2203,13 +2203,19 @@ class Interp:
             if not decos:
                 return BoundV(clo, inst) if inst is not None else clo
             return Unknown(f"method {c.node.name}.{attr} with decorators {decos}")
-        # class-level constant
+        # class-level value: ONE object per class (created when the class body ran), shared by all instances of this run
+        gkey = (c.rel, f"{c.node.name}.{attr}")
+        if gkey in state.globals:
+            return state.globals[gkey]
         dst = State()
         dst.env = dict(self.module_env(c.rel))
         try:
-            return self.eval(m.value, dst, c.rel)
+            v = self.eval(m.value, dst, c.rel)
         except (_Raise, _Fork, Budget, _Unmodelled, RecursionError):
             return Unknown(f"class constant {c.node.name}.{attr} not modelled")
+        if isinstance(v, (ListV, MapV, CellV)):
+            state.globals[gkey] = v
+        return v
 
     def instantiate(self, c: ClassV, args: List[Any], kwargs: Dict[str, Any], state: State, node: ast.AST) -> Any:
         kind = self.class_kind(c)
